@@ -25,7 +25,7 @@ import xarray as xr
 
 from harness import core
 
-GEN = ["gen_valconst", "gen_xcheck_kernel"]
+GEN = ["gen_valconst", "gen_xcheck_kernel", "gen_callbacks"]
 EXTRACT_FILES = ["X07"]
 DRIVERS = ["x07"]
 RULE = ("a case = a pair of left/right disparity maps (1..6 x 1..14, values k/4 with invalid_disparity -9999 or NaN), "
